@@ -14,7 +14,8 @@
 (*   Preamble ::= ATP LB Braced RB       Comment ::= ATC LB Braced RB      *)
 (*   Key      ::= W                                                        *)
 (* Braced: balanced braces, quotes inert.  Quoted: balanced braces, no     *)
-(* unescaped quote at any depth.  Kind "H" is the token "#" on its own.    *)
+(* unescaped quote at depth 0 (a quote inside braces is inert), no stray   *)
+(* "}".  Kind "H" is the token "#" on its own.                             *)
 (*                                                                         *)
 (* Every parse function returns 0 on failure.  Recognise(toks) returns     *)
 (* [ok, blocks] with blocks in the record format of BibSplitter, so that   *)
@@ -32,10 +33,10 @@ MatchBrace(toks, i, lim) ==
                            ELSE IF toks[x].k = "RB" THEN (IF a.d = 0 THEN [a EXCEPT !.j = x] ELSE [a EXCEPT !.d = @ - 1])
                            ELSE a,
              [d |-> 0, j |-> 0], [x \in 1..(lim - i - 1) |-> i + x]).j
-\* index of the QT closing the QT at i: braces balanced in between, no quote inside braces, no stray "}"
+\* index of the QT closing the QT at i: the first quote at brace depth 0, braces balanced in between, no stray "}"
 MatchQuote(toks, i, lim) ==
     LET r == FoldLeft(LAMBDA a, x : IF a.j # 0 \/ a.bad THEN a
-                           ELSE IF toks[x].k = "QT" THEN (IF a.d = 0 THEN [a EXCEPT !.j = x] ELSE [a EXCEPT !.bad = TRUE])
+                           ELSE IF toks[x].k = "QT" THEN (IF a.d = 0 THEN [a EXCEPT !.j = x] ELSE a)
                            ELSE IF toks[x].k = "LB" THEN [a EXCEPT !.d = @ + 1]
                            ELSE IF toks[x].k = "RB" THEN (IF a.d = 0 THEN [a EXCEPT !.bad = TRUE] ELSE [a EXCEPT !.d = @ - 1])
                            ELSE a,
